@@ -84,7 +84,7 @@ func clonePositions(ps []*msgpb.MsgPosition) []*msgpb.MsgPosition {
 	return out
 }
 
-// decodeReplicate builds the record from the (already cloned) request.
+// decodeReplicate builds the record from the call's private clone of the request.
 func (s *Server) decodeReplicate(c *Call, req *milvuspb.ReplicateMessageRequest) *ReplicateRecord {
 	r := &ReplicateRecord{Call: c, Channel: req.GetChannelName(), BeginTs: req.GetBeginTs(), EndTs: req.GetEndTs(),
 		StartPositions: clonePositions(req.GetStartPositions()), EndPositions: clonePositions(req.GetEndPositions()),
@@ -94,9 +94,7 @@ func (s *Server) decodeReplicate(c *Call, req *milvuspb.ReplicateMessageRequest)
 		r.Base = proto.Clone(req.GetBase()).(*commonpb.MsgBase)
 		r.ReplicateInfo = r.Base.GetReplicateInfo()
 	}
-	for _, b := range req.GetMsgs() {
-		r.MsgsBytes = append(r.MsgsBytes, append([]byte(nil), b...))
-	}
+	r.MsgsBytes = req.GetMsgs() // req is the call's private clone of the request: share its buffers
 	r.Msgs = make([]msgstream.TsMsg, len(r.MsgsBytes))
 	r.MsgTypes = make([]commonpb.MsgType, len(r.MsgsBytes))
 	r.DecodeErrs = make([]string, len(r.MsgsBytes))
@@ -179,7 +177,7 @@ func (s *Server) AllReplicates() []*ReplicateRecord {
 }
 
 // ReplicateMessage validates like Milvus' proxy (non-empty channel, every message decodable), then accepts.
-func (s *Server) ReplicateMessage(ctx context.Context, req *milvuspb.ReplicateMessageRequest) (*milvuspb.ReplicateMessageResponse, error) {
+func (s *svc) ReplicateMessage(ctx context.Context, req *milvuspb.ReplicateMessageRequest) (*milvuspb.ReplicateMessageResponse, error) {
 	c := callFrom(ctx)
 	var rec *ReplicateRecord
 	if c != nil {
@@ -193,9 +191,6 @@ func (s *Server) ReplicateMessage(ctx context.Context, req *milvuspb.ReplicateMe
 	}
 	if rec.DecodeErr != "" {
 		return &milvuspb.ReplicateMessageResponse{Status: merr.Status(merr.WrapErrParameterInvalidMsg("%s", rec.DecodeErr))}, nil
-	}
-	if len(rec.MsgsBytes) == 0 {
-		return &milvuspb.ReplicateMessageResponse{Status: merr.Status(merr.WrapErrParameterInvalidMsg("empty message pack in the replicate message request"))}, nil
 	}
 
 	s.mu.Lock()
